@@ -27,6 +27,7 @@ type InstResult struct {
 	MaxThreads     int            `json:"max_threads"`
 	CapHits        int            `json:"cap_hits"`
 	Pruned         int            `json:"pruned"`
+	Histories      int            `json:"histories"`
 	Complete       bool           `json:"complete"`
 	Outcomes       map[string]int `json:"outcomes"`
 	ViolExecs      int            `json:"viol_execs"`
